@@ -802,10 +802,26 @@ def one_run(case, name):
 COMPONENTS = ['result', 'exception', 'state', 'files', 'logs', 'stdout']
 
 
+class ChildDied(Exception):
+    pass
+
+
 def forked(fn, *a):
     """Run fn(*a) in a forked child and return its JSON result.  The C++ engine keeps the first
     exception it ever raised and re-raises it on every later evaluation of the process, so every
-    single run gets a pristine copy of this (never evaluating) parent."""
+    single run gets a pristine copy of this (never evaluating) parent.  A child that dies without
+    a complete result (the engine's worker threads can take the process down after one of them
+    raised) is retried; three deaths in a row are reported as data."""
+    last = ''
+    for attempt in range(3):
+        try:
+            return _forked_once(fn, *a)
+        except ChildDied as e:
+            last = str(e)
+    raise ChildDied(last)
+
+
+def _forked_once(fn, *a):
     import signal
     import traceback
     sys.stdout.flush()
@@ -814,7 +830,7 @@ def forked(fn, *a):
     if pid == 0:
         try:
             os.close(r)
-            signal.alarm(300)
+            signal.alarm(600)
             try:
                 res = {'ok': fn(*a)}
             except LookupError as e:
@@ -823,17 +839,22 @@ def forked(fn, *a):
                 res = {'setup': str(e)[:300]}
             except BaseException as e:  # noqa
                 res = {'crash': f'{type(e).__name__}: {e}'[:300], 'tb': traceback.format_exc()[-600:]}
+            try:
+                data = json.dumps(res, default=str)
+            except BaseException as e:  # noqa
+                data = json.dumps({'crash': f'unserialisable result: {type(e).__name__}: {e}'[:300]})
             with os.fdopen(w, 'w') as f:
-                json.dump(res, f, default=str)
+                f.write(data)
         finally:
             os._exit(0)
     os.close(w)
     with os.fdopen(r) as f:
         data = f.read()
-    os.waitpid(pid, 0)
-    if not data:
-        raise RuntimeError('child process died without a result')
-    res = json.loads(data)
+    _, status = os.waitpid(pid, 0)
+    try:
+        res = json.loads(data)
+    except ValueError:
+        raise ChildDied(f'child ended with wait status {status} after {len(data)} bytes of output')
     if 'lookup' in res:
         raise LookupError(res['lookup'])
     if 'setup' in res:
@@ -915,9 +936,16 @@ for case in payload['cases']:
         except SetupError as e:
             results.append({'case': case, 'status': 'setup-failed', 'why': str(e)[:300]})
             continue
+        except ChildDied as e:
+            results.append({'case': case, 'status': 'process-died', 'why': str(e)[:300]})
+            continue
         rounds = 1
         while diffs and rounds < 3:  # keep only what is reproducible (thread races, clocks)
-            d2, u2, _, n2 = triple(case)
+            try:
+                d2, u2, _, n2 = triple(case)
+            except ChildDied:
+                diffs = []
+                break
             keep = {d['at'] for d in d2}
             diffs = [d for d in diffs if d['at'] in keep]
             unstable += u2
